@@ -655,6 +655,9 @@ func (vc *FuncVC) trCall(e *env, n *ECall) Term {
 		case "fresh": // fresh(r): r was not allocated at function entry
 			al := vc.get(e.old, "alloc", "(Array Int Bool)")
 			return not(app("Bool", "select", al, args[0]))
+		case "allocated": // allocated(r): r is allocated in the current state
+			al := vc.get(e.st(), "alloc", "(Array Int Bool)")
+			return app("Bool", "select", al, args[0])
 		case "overrides": // overrides(other, "pkg.T"): the application's callback list holds a func(context.Context, T) error (see dispatch.go)
 			if st, ok := n.Args[1].(*EStr); ok {
 				t := vc.eng.typeByName(st.V)
@@ -725,6 +728,11 @@ func (vc *FuncVC) trCall(e *env, n *ECall) Term {
 				}
 				r := vc.unboxPayload(app("Int", "i!pl", args[0]), vc.ss.sortOf(t))
 				r.GoT = t
+				if r.Sort == "Slice" && !vc.subSeen["wf:"+r.S] && !strings.Contains(r.S, "q!") {
+					// type invariant of every slice value
+					vc.subSeen["wf:"+r.S] = true
+					vc.emit("(assert (and (>= (s!len %s) 0) (>= (s!off %s) 0) (>= (s!cap %s) (s!len %s)) (=> (= (s!arr %s) 0) (= (s!cap %s) 0))))", r.S, r.S, r.S, r.S, r.S, r.S)
+				}
 				return r
 			}
 		case "unboxstr": // unboxstr(x): the string held by an interface value of dynamic type string
@@ -1005,8 +1013,46 @@ func (vc *FuncVC) pureFacts(e *env, c *Contract, recv Term, args []Term, result 
 func (vc *FuncVC) pureStaticCall(e *env, pkg *ssa.Package, name string, args []Term) (Term, bool) {
 	key := strings.ReplaceAll(pkg.Pkg.Path(), modPrefix, "") + "." + name
 	fn := vc.eng.fnByKey[key]
+	idx := -1
+	if fn == nil {
+		// pkg.F_1(x): the second result of a pure function with several results
+		if i := strings.LastIndex(name, "_"); i > 0 && i == len(name)-2 && name[i+1] >= '0' && name[i+1] <= '9' {
+			key = strings.ReplaceAll(pkg.Pkg.Path(), modPrefix, "") + "." + name[:i]
+			fn = vc.eng.fnByKey[key]
+			idx = int(name[i+1] - '0')
+		}
+	}
 	if fn == nil {
 		return Term{}, false
+	}
+	if idx >= 0 {
+		c := vc.eng.specs.Contracts[key]
+		if c == nil || !c.Pure || idx >= fn.Signature.Results().Len() || fn.Signature.Results().Len() < 2 {
+			return Term{}, false
+		}
+		var as []Term
+		var sorts []string
+		for _, dep := range pureDeps(c) {
+			ds := "Int"
+			if gs, ok := vc.ghostSort(dep); ok {
+				ds = gs
+			}
+			as = append(as, vc.get(e.st(), "G:"+dep, ds))
+			sorts = append(sorts, ds)
+		}
+		for i, a := range args {
+			if a.Sort == nilSort && i < fn.Signature.Params().Len() {
+				a = vc.ss.zero(vc.ss.sortOf(fn.Signature.Params().At(i).Type()))
+			}
+			as = append(as, a)
+			sorts = append(sorts, a.Sort)
+		}
+		fname := fmt.Sprintf("f!%s!%d", smtIdent(key), idx)
+		rt := fn.Signature.Results().At(idx).Type()
+		vc.eng.needFun(vc, fname, sorts, vc.ss.sortOf(rt))
+		r := app(vc.ss.sortOf(rt), fname, as...)
+		r.GoT = rt
+		return r, true
 	}
 	c := vc.eng.specs.Contracts[key]
 	if c == nil {
